@@ -89,7 +89,24 @@ class VfsRequest(request.SmartServerRequest):
             A string path suitable for use on the server side.
         """
         x = request.SmartServerRequest.translate_client_path(self, relpath)
-        return str(urlutils.unescape(x))
+        result = str(urlutils.unescape(x))
+        # The result is still URL-escaped once and the backing transport will
+        # unescape it.  Escaped dots and separators (e.g. '..%2Fsecret') were
+        # invisible to the '..' check above, so make sure that what the
+        # transport will see cannot climb above the root either.
+        try:
+            visible = urlutils.unescape(result)
+        except urlutils.InvalidURL:
+            visible = result
+        depth = 0
+        for segment in visible.split("/"):
+            if segment == "..":
+                depth -= 1
+                if depth < 0:
+                    raise urlutils.InvalidURLJoin("Above root", "/", (visible,))
+            elif segment not in ("", "."):
+                depth += 1
+        return result
 
 
 class HasRequest(VfsRequest):
